@@ -154,6 +154,21 @@ def run(chk):
     C07.check_r3_slots(chk, "default", lib)
     chk.rule_prefix = ""
     chk.rule_filter = None
+    # an event accepted by fibre_eventq_send makes its handler runnable only if every send also wakes it (C06 I2)
+    from . import C06
+    chk.rule_prefix = "C06."
+    chk.rule_filter = lambda r: r.startswith("I2")
+    C06.check_i2(chk, m, K)
+    chk.rule_prefix = ""
+    chk.rule_filter = None
+    # a pending timeout is served by the first pass at or after its due time only if expiry is a signed cyclic test
+    # (C02 T1 on the timer functions of fibre.c, T3 on fibre_timeout / handle_timerq)
+    chk.rule_prefix = "C02."
+    chk.rule_filter = lambda r: r.startswith(("T1", "T3"))
+    C02.check_t1(chk, [(m, ["handle_timerq", "fibre_timeout", "get_next_wakeup", "fibre_scheduler_next"])], K, 1)
+    C02.check_t3(chk, m, K)
+    chk.rule_prefix = ""
+    chk.rule_filter = None
     mp = build.load_unit("librfn/posix/fibre_posix.c")
     chk.note_unit(mp)
     check_main_loop_clock(chk, mp)
